@@ -1,6 +1,9 @@
 """SASLprep written from RFC 4013 on top of the RFC 3454 tables in the stdlib `stringprep` module.
-Stored-string profile is not used: like RFC 4013 section 2.5 for "queries"? No -- passwords are
-*stored strings*, unassigned code points (table A.1) are prohibited.  Shares nothing with passlib."""
+Passwords are "stored strings" (RFC 4013 section 2.5): unassigned code points (table A.1) are prohibited.
+Shares nothing with passlib.
+
+`ucd` selects the normaliser: RFC 3454 pins Unicode 3.2 (unicodedata.ucd_3_2_0), most implementations use
+the current database; the two differ on five CJK compatibility ideographs only (Corrigendum #4)."""
 import stringprep
 import unicodedata
 
@@ -9,10 +12,22 @@ class Prohibited(ValueError):
     pass
 
 
-def saslprep(s, allow_unassigned=False):
+def saslprep(s, allow_unassigned=False, ucd=unicodedata, b1_first=False, a1_on_output_only=False):
     # 2.1 mapping: C.1.2 -> SPACE, B.1 -> nothing
+    # 2.5 / RFC 3454 section 7: a stored string MUST NOT contain unassigned code points.  Checked on the
+    # input: a normaliser newer than Unicode 3.2 rewrites some of them into assigned characters (U+03F9 ->
+    # U+03A3, U+1D2C -> 'A', ...) and a check on the output alone would then let them through.
+    # a1_on_output_only reproduces that lenient reading (used by the harness to classify a mismatch).
+    if not allow_unassigned and not a1_on_output_only:
+        for ch in s:
+            if stringprep.in_table_a1(ch):
+                raise Prohibited("unassigned U+%04X" % ord(ch))
+    # U+200B ZERO WIDTH SPACE is a member of both tables and RFC 4013 gives no precedence (libidn and
+    # node-saslprep map it to SPACE, others drop it): b1_first selects the second reading
     out = []
     for ch in s:
+        if b1_first and stringprep.in_table_b1(ch):
+            continue
         if stringprep.in_table_c12(ch):
             out.append(" ")
         elif stringprep.in_table_b1(ch):
@@ -20,7 +35,7 @@ def saslprep(s, allow_unassigned=False):
         else:
             out.append(ch)
     # 2.2 normalisation KC
-    t = unicodedata.normalize("NFKC", "".join(out))
+    t = ucd.normalize("NFKC", "".join(out))
     # 2.3 prohibited output
     for ch in t:
         if (
